@@ -216,9 +216,12 @@ pub enum QueryKind {
 }
 
 /// Build the query list for the threads in `truth` (deterministic in `seed`).
-pub fn gen_queries(truth: &Truth, seed: u64, max_threads: usize) -> Vec<Query> {
+pub fn gen_queries(truth: &Truth, seed: u64, max_threads: usize, only: Option<&[String]>) -> Vec<Query> {
     let mut rng = Rng::derive(seed, "queries");
     let mut threads = truth.thread_ids();
+    if let Some(only) = only {
+        threads.retain(|t| only.contains(t));
+    }
     // prefer the longest threads
     threads.sort_by_key(|t| std::cmp::Reverse(truth.thread(t).len()));
     threads.truncate(max_threads);
@@ -624,7 +627,16 @@ fn explain(image: &DirImage, truth: &Truth, thread: &str, fault_log: &[(String, 
 }
 
 pub fn compare_store(root: &Path, ws: &Path, image: &DirImage, truth: &Truth, query_seed: u64, max_threads: usize, stats: &mut RunStats, known: &[String], fault_log: &[(String, String)]) -> Result<Option<Violation>, String> {
-    let queries = gen_queries(truth, query_seed, max_threads);
+    // thread lookup by id goes through index.json, whose loss is only claimed for default-thread
+    // recovery: query the threads the index knows
+    let indexed: Option<Vec<String>> = image
+        .get("continuities/index.json")
+        .and_then(|b| serde_json::from_slice::<Value>(b).ok())
+        .and_then(|v| v.get("continuities").and_then(|c| c.as_object()).map(|o| o.keys().cloned().collect()));
+    let Some(indexed) = indexed else {
+        return Ok(None);
+    };
+    let queries = gen_queries(truth, query_seed, max_threads, Some(&indexed));
     if queries.is_empty() {
         return Ok(None);
     }
